@@ -249,12 +249,29 @@ func rValue(v spec.Value, depth int) uint64 {
 				sum++
 			}
 		}
+		// absent fields read as zero values through every accessor kind, without allocating
+		for _, tag := range absentProbe {
+			if m.HasField(tag) {
+				continue
+			}
+			sum += uint64(m.Message(tag).Fields()) + uint64(m.List(tag).Len()) + uint64(len(m.String(tag))) + uint64(len(m.Bytes(tag))) +
+				uint64(m.Int64(tag)) + uint64(m.Uint32(tag)) + uint64(m.Byte(tag)) + uint64(len(m.Field(tag))) + uint64(len(m.FieldRaw(tag)))
+			sum += uint64(m.Field(tag).Message().Fields()) + uint64(m.Field(tag).List().Len()) + uint64(m.Message(tag).Message(1).Fields())
+			sum += uint64(m.Message(tag).Int32(1)) + uint64(len(m.Message(tag).String(2)))
+			x := m.Bin128(tag)
+			sum += uint64(x[0][0]) + uint64(math.Float64bits(m.Float64(tag)))
+			if m.Bool(tag) {
+				sum++
+			}
+		}
 		return sum
 	}
 	return 0
 }
 
 var c17sink uint64
+
+var absentProbe = []uint16{0, 3, 9, 254, 257, 40000, 65535}
 
 func strip(n *vg.Node) {
 	n.Via = 0
@@ -328,6 +345,8 @@ func C17(c *runner.Cfg) *report.Result {
 			if err == nil {
 				c17sink += rValue(v, 0)
 			}
+			c17sink += uint64(spec.OpenMessage(nil).Fields()) + uint64(spec.OpenList(nil).Len()) + uint64(len(spec.OpenValue(nil)))
+			c17sink += uint64(len(spec.OpenValue(ref)))
 		}); a != 0 {
 			res.Violate("c17:read-allocates", fmt.Sprintf("reading allocates %.0f objects per run", a), witness)
 		}
